@@ -59,6 +59,8 @@ class C04(Prop):
         g = cond.Gen(rng, len(STRINGS), len(mem), exts, max_depth=4)
         while True:
             c = g.gbool(rng.range(1, 4))
+            if rng.chance(1, 10):
+                c = sibling_loops(rng, len(STRINGS))
             probes = [g.gint(rng.range(0, 3)) for _ in range(rng.range(0, 4))]
             if not cond.has_big_range(c) and not any(cond.has_big_range(p) for p in probes):
                 break
@@ -95,7 +97,20 @@ class C04(Prop):
                 "input": {"mem": case["mem"]}}
 
     def execute(self, ctx, cases):
-        return core.harness_run(ctx.binp, "scan", [self.harness_case(c) for c in cases])
+        outs = core.harness_run(ctx.binp, "scan", [self.harness_case(c) for c in cases])
+        # the same rules scanned with the default parameters (evaluation before the string scan allowed, no match
+        # details): only the verdict of rule `c` is kept, it must be the same
+        dcases = []
+        for c in cases:
+            h = self.harness_case(c)
+            h["params"] = {"match_max_length": c.get("match_max_length", 512)}
+            dcases.append(h)
+        douts = core.harness_run(ctx.binp, "scan", dcases)
+        for o, d in zip(outs, douts):
+            if isinstance(o, dict):
+                o["default_run"] = ({"error": d.get("error"), "matched": [r["name"] for r in d.get("rules", []) if r["matched"]]}
+                                    if isinstance(d, dict) and "rules" in d else {"error": str(d)[:200]})
+        return outs
 
     def term(self, ctx, case, out):
         if not isinstance(out, dict) or "rules" not in out or out.get("error"):
@@ -105,6 +120,11 @@ class C04(Prop):
         mem = bytes.fromhex(case["mem"])
         pr = cond.Printer([n for n, _ in STRINGS])
         verdict = any(r["name"] == "c" and r["matched"] for r in out["rules"])
+        dr = out.get("default_run") or {}
+        if dr.get("error") or ("c" in dr.get("matched", [])) != verdict:
+            ctx.count("default parameters give another verdict")
+            ctx.notes.append("rule c: verdict %s with full matches, default run %s" % (verdict, dr))
+            return (False, False, 0)
         logs = {}
         for l in out.get("logs", []):
             k, _, v = l.partition(":")
@@ -126,6 +146,25 @@ class C04(Prop):
     def sample(self, case, out):
         return {"rules": self.rules_text(case), "mem": case["mem"],
                 "impl": {"matched": [r["name"] for r in (out or {}).get("rules", [])], "logs": (out or {}).get("logs")}}
+
+
+def sibling_loops(rng, nvars):
+    """Two loops over integers side by side, the first with a body that needs the string matches: whatever the
+    first leaves behind (bound identifiers, selected string) must not be seen by the second."""
+    lo = rng.choice([2, 3, 5])
+    first_body = rng.choice([("varat", rng.below(nvars), ("bound", 0)), ("bin", "eq", ("count", rng.below(nvars)), ("bound", 0)),
+                             ("var", rng.below(nvars))])
+    k1 = rng.choice(["any", "all", "none"])
+    first = rng.choice([("forrange", k1, None, ("int", lo), ("int", lo + rng.choice([0, 1])), first_body),
+                        ("forlist", k1, None, [("int", lo), ("int", lo + 1)], first_body)])
+    probe = rng.choice([("bin", "eq", ("bound", 0), ("int", lo + rng.choice([0, 1]))),
+                        ("bin", "ge", ("bound", 0), ("int", lo)),
+                        ("bin", "eq", ("readint", "uint8", ("bound", 0)), ("int", rng.choice([97, 98, 99])))])
+    k2 = rng.choice(["any", "all", "none"])
+    second = rng.choice([("forrange", k2, None, ("int", 0), ("int", rng.choice([0, 1])), probe),
+                         ("forlist", k2, None, [("int", 0), ("int", 1)], probe)])
+    c = (rng.choice(["or", "and"]), [first, second])
+    return ("un", "not", c) if rng.chance(1, 3) else c
 
 
 def tup(x):
